@@ -294,7 +294,7 @@ pub fn check() -> Check {
         "Decimal text parsing and printing are exact inverses",
         "part print_parse: boundary-heavy random Decimal/PreciseDecimal values are printed and parsed back, the text is compared with an exact bigint rendering; non-trivial = value in (-1,0), or with fractional digits, or a type limit. part strings: numerals from the grammar [+-]?digits(.digits)? (lengths around the scale, magnitudes around the range limit) with, half of the time, one character inserted/deleted/replaced (signs, points, spaces, underscores, exponents, NUL, non-ASCII digits) or raw bytes; an independent recogniser decides membership and the exact value; non-trivial = mutated string, or a valid numeral in (-1,0). Distinct = distinct decoded choice sequences.",
     )
-    .part(Part::new("print_parse", 200_000, 20_000_000, 96, print_parse))
-    .part(Part::new("strings", 400_000, 40_000_000, 160, strings))
+    .part(Part::new("print_parse", 2_000_000, 60_000_000, 96, print_parse))
+    .part(Part::new("strings", 4_000_000, 120_000_000, 160, strings))
     .min_nontrivial_pct(20.0)
 }
